@@ -222,6 +222,29 @@ func TestC05_NumericFields(t *testing.T) {
 	}
 }
 
+// TestC05_Resized: for generated valid messages containing every option type, every item at every nesting level is
+// resized by −2..+16 octets with all enclosing lengths adjusted (the framing stays perfect).
+func TestC05_Resized(t *testing.T) {
+	n := 30
+	if os.Getenv("VERIF_TIER") == "thorough" {
+		n = 300
+	}
+	rapidSample(t, n, 77, func(rt *rapid.T) {
+		b := []byte(genV6Wire(v6Cfg(2, 12, false)).Draw(rt, "msg"))
+		if len(b) > 1500 {
+			return
+		}
+		for _, pth := range refv6.LenPaths(b) {
+			for _, delta := range []int{-2, -1, 1, 2, 3, 4, 8, 16} {
+				if r := refv6.Resize(b, pth, delta, 0x41); r != nil {
+					c05.one(t, obs.Hex(r))
+				}
+			}
+		}
+	})
+	c05.rec.Class("items resized with consistent enclosing lengths")
+}
+
 func TestC05_DeepRelay(t *testing.T) {
 	for _, inner := range deepInners() {
 		for d := 1; d <= 105; d++ {
@@ -258,6 +281,17 @@ func mutateV6(t *rapid.T, b []byte) []byte {
 	b = append([]byte{}, b...)
 	if len(b) == 0 {
 		return b
+	}
+	if rapid.IntRange(0, 4).Draw(t, "resize") == 0 {
+		// one item (an option, a sub-option, a list item — at any nesting level) gets another size while every enclosing
+		// length is adjusted with it: the framing stays perfect, only that item is now too long or too short for its type
+		if paths := refv6.LenPaths(b); len(paths) > 0 {
+			pth := paths[rapid.IntRange(0, len(paths)-1).Draw(t, "item")]
+			delta := rapid.SampledFrom([]int{1, 1, -1, 2, 4, 16, -2, 8, -4}).Draw(t, "delta")
+			if r := refv6.Resize(b, pth, delta, byte(rapid.SampledFrom([]int{0, 0x41, 0xff}).Draw(t, "fill"))); r != nil {
+				return r
+			}
+		}
 	}
 	switch rapid.IntRange(0, 8).Draw(t, "mut") {
 	case 8: // append a label-bearing option (search list, FQDN, NTP server FQDN) with a generated, possibly hostile, label buffer
